@@ -6,7 +6,12 @@ tie  : Gen_Resolve.v regenerated from the source (transport table, defaults, mag
        model/Resolve.v [resolve] and model/SshArgv.v [build_open_cmd, ssh_parse] against the real constructors
        (sync Driver / AsyncDriver / Generic / IOSXE) over a real temporary file system, + an independent oracle
        (precedence spec, reported-vs-dialled on the transport OBJECT, argv read by an independent Python
-       getopt, by the real `ssh -G`, and as received by a stand-in ssh binary)."""
+       getopt, by the real `ssh -G`, and as received by a stand-in ssh binary)
+       + dial suite (c17_dial.py): histories over SEVERAL driver objects of one process (open / close / re-open /
+       direct _build_open_cmd in generated orders) through the real open() of every transport with the connect
+       entry points replaced by recorders; every recorded spawn / socket / auth / asyncssh.connect call — absent
+       keywords resolved the way the library resolves them — against what THAT driver reports; the system
+       histories and the asyncssh keywords also against model/OpenHist.v by vm_compute."""
 import json
 import os
 import re
@@ -16,6 +21,7 @@ import subprocess
 import sys
 import time
 
+from . import c17_dial as dial
 from . import common
 from .c17_env import SshUsage, _plain, coq_opt, coq_str, ensure_ssh2_importable, o_get, py_ssh_parse, set_prefix
 from .common import coq_bool, coq_list
@@ -48,6 +54,9 @@ CFG_SPECS = [
     {"r1": {"port": 0, "user": "zero"}},
 ]
 HOME_A_CFG = {"r1": {"port": 2300, "user": "homeuser"}}
+# config files of the dial suite only: a User that asyncssh's own config reader accepts for the host and
+# scrapli's does not fold into the driver (the driver then reports no username)
+DIAL_CFGS = {"d0": "Host r1\n  User net-admin\n", "d1": "Host zz9 r1\n  User ops.team\n  Port 2022\n"}
 
 PLAIN_HOSTS = ["r1", "core-sw.example.net", "10.0.0.1", "zz9"]
 BLANK_HOSTS = [" r1 ", "r1\n", "\tr1", "  core-sw.example.net", "zz9 \r\n", "\xa0r1", "r1 ", "\x1fzz9\x1c"]
@@ -80,6 +89,8 @@ def make_fixture(workdir):
     os.makedirs(os.path.join(root, "cfgs"))
     for i, spec in enumerate(CFG_SPECS):
         open(os.path.join(root, "cfgs", "c%d" % i), "w").write(render_cfg(spec))
+    for name, txt in DIAL_CFGS.items():
+        open(os.path.join(root, "cfgs", name), "w").write(txt)
     open(os.path.join(root, "home_a", ".ssh", "config"), "w").write(render_cfg(HOME_A_CFG))
     open(os.path.join(root, "home_a", ".ssh", "known_hosts"), "w").write("r1 ssh-ed25519 AAAA\n")
     open(os.path.join(root, "home_a", ".ssh", "id_k"), "w").write("key\n")
@@ -748,6 +759,461 @@ def real_vs_py(argv, ps, home):
     return None
 
 
+
+# ------------------------------------------------------------------------------------------------
+# dial suite: multi-object histories through the real open(), connect entry points replaced by recorders
+# ------------------------------------------------------------------------------------------------
+DIAL_TRANSPORTS = ["system", "paramiko", "asyncssh", "telnet", "asynctelnet"]
+HEADER_DIAL = """From Coq Require Import String.
+From Verif Require Import Bytes Resolve SshArgv OpenHist.
+Definition FX : str := %s.
+Fixpoint spawns_beq (a b : list (nat * list str)) : bool :=
+  match a, b with
+  | [], [] => true
+  | (i, x) :: a', (j, y) :: b' => Nat.eqb i j && lbeq x y && spawns_beq a' b'
+  | _, _ => false
+  end.
+Definition chk_hist (c : list sys_obj * list hop * list (nat * list str)) : bool :=
+  let '(objs, ops, seen) := c in spawns_beq (hist_spawns objs ops) seen.
+Definition oseq (a b : option str) : bool :=
+  match a, b with Some x, Some y => beq x y | None, None => true | _, _ => false end.
+Definition oneq (a b : option N) : bool :=
+  match a, b with Some x, Some y => x =? y | None, None => true | _, _ => false end.
+Definition chk_kw (c : base_targs * plugin_targs * conn_kwargs * lib_env * (str * N * str)) : bool :=
+  let '(b, p, seen, l, (rh, rp, ru)) := c in
+  let k := asyncssh_kwargs b p in
+  oseq (k_host k) (k_host seen) && oneq (k_port k) (k_port seen) && oseq (k_user k) (k_user seen)
+  && let '(mh, mp, mu) := lib_resolve l seen in beq mh rh && (mp =? rp) && beq mu ru.
+Definition chk_dial (c : (list sys_obj * list hop * list (nat * list str))
+                         + (base_targs * plugin_targs * conn_kwargs * lib_env * (str * N * str))) : bool :=
+  match c with inl h => chk_hist h | inr k => chk_kw k end.
+"""
+
+
+def gen_dial_obj(rng, root, t):
+    """one valid argument combination for transport t (nothing the constructor refuses)"""
+    for _ in range(100):
+        c = gen_case(rng)
+        c["transport"] = t
+        r = rng.random()
+        c["host"] = (rng.choice(PLAIN_HOSTS) if r < 0.6 else rng.choice(BLANK_HOSTS) if r < 0.85
+                     else rng.choice(EMBEDDED_HOSTS))
+        c["extra"] = None
+        if t == "system":
+            if rng.random() < 0.15:
+                c["extra"] = rng.choice([["-v"], "-4", ["-o", "ProxyCommand=none"], ["-p", "9"]])
+        else:
+            c["tsock"], c["ttrans"] = 15.0, 30.0       # wait_for(connect, timeout_socket): 0 would never run it
+        if t in LIBRARY:
+            if rng.random() < 0.35:
+                c["strict"], c["kh"], c["host"] = True, "$FX/kh1", rng.choice(["r1", " r1 ", "r1\n"])
+            else:
+                c["strict"] = False
+            if rng.random() < 0.3:
+                c["cfg"] = rng.choice(["$FX/cfgs/d0", "$FX/cfgs/d1"])
+        if not malformed_reasons(root, c):
+            return c
+    raise RuntimeError("dial suite: no valid object generated")
+
+
+def gen_history(rng, root):
+    """objects (argument combinations) + a schedule of open / close / build over them"""
+    r = rng.random()
+    k = rng.choice([1, 2, 2, 3, 3, 4])
+    if r < 0.5:
+        ts = ["system"] * max(k, 2)
+    elif r < 0.75:
+        ts = [rng.choice(DIAL_TRANSPORTS)] * k
+    else:
+        ts = [rng.choice(DIAL_TRANSPORTS) for _ in range(k)]
+    objs = []
+    for t in ts:
+        c = gen_dial_obj(rng, root, t)
+        if objs and objs[-1]["transport"] == t and rng.random() < 0.4:
+            # a neighbour of the previous object: same device, one or two arguments differ (other port,
+            # fallback credentials)
+            n = dict(objs[-1])
+            for f in rng.sample(["host", "port", "user", "key", "cfg"], rng.randint(1, 2)):
+                n[f] = c[f]
+            if not malformed_reasons(root, n):
+                c = n
+        objs.append(c)
+    order = list(range(len(objs)))
+    rng.shuffle(order)
+    ops = []
+    for i in order:
+        if objs[i]["transport"] == "system" and rng.random() < 0.1:
+            ops.append(["build", i])
+        ops.append(["open", i])
+    is_open = set(order)
+    for _ in range(rng.randint(0, 2 * len(objs))):
+        i = rng.randrange(len(objs))
+        if objs[i]["transport"] == "system" and rng.random() < 0.15:
+            ops.append(["build", i])
+        elif i in is_open:
+            ops.append(["close", i])
+            is_open.discard(i)
+        else:
+            ops.append(["open", i])
+            is_open.add(i)
+    return {"objects": objs, "ops": ops}
+
+
+def structured_histories():
+    """library transports: no username x (no config / config without User / with a User the driver folds /
+    with a User only the library's reader accepts / Host * User / the user's own config), explicit username
+    as control; and the system transport's plain multi-device shapes"""
+    out = []
+    for t in ("asyncssh", "paramiko"):
+        for user in ("", "admin"):
+            for cfg, home in ((False, "home_b"), ("$FX/cfgs/c1", "home_b"), ("$FX/cfgs/c2", "home_b"),
+                              ("$FX/cfgs/c5", "home_b"), ("$FX/cfgs/d0", "home_b"), ("$FX/cfgs/d1", "home_b"),
+                              (True, "home_a")):
+                for host in ("r1", "zz9"):
+                    out.append({"objects": [full_case({"transport": t, "host": host, "user": user, "cfg": cfg,
+                                                       "home": home, "strict": False})], "ops": [["open", 0]]})
+        # an explicit port that equals the library's default, with a config that has a Port for the host
+        for user in ("", "admin"):
+            for cfg in ("$FX/cfgs/c1", "$FX/cfgs/c2", "$FX/cfgs/d1"):
+                out.append({"objects": [full_case({"transport": t, "host": "r1", "port": 22, "user": user, "cfg": cfg,
+                                                   "strict": False})], "ops": [["open", 0]]})
+    devs = [full_case({"host": "core-sw.example.net", "port": 22, "user": "admin", "strict": False}),
+            full_case({"host": "10.0.0.1", "port": 2222, "user": "a b", "strict": False}),
+            full_case({"host": "zz9", "user": "-x", "strict": True, "kh": "$FX/kh1", "cfg": "$FX/cfgs/c1"})]
+    out.append({"objects": devs, "ops": [["open", 0], ["open", 1], ["open", 2]]})
+    out.append({"objects": devs, "ops": [["open", 2], ["close", 2], ["open", 0], ["close", 0], ["open", 1], ["open", 2]]})
+    out.append({"objects": [devs[0], dict(devs[0], port=830, user="a b")],
+                "ops": [["open", 0], ["close", 0], ["open", 1], ["open", 0]]})
+    out.append({"objects": [devs[0], dict(devs[0], user="")], "ops": [["build", 1], ["open", 1], ["open", 0], ["close", 1], ["open", 1]]})
+    for t in ("telnet", "asynctelnet", "paramiko", "asyncssh"):
+        a = full_case({"transport": t, "host": "r1", "port": 2022, "user": "admin", "strict": False})
+        b = full_case({"transport": t, "host": " zz9 ", "user": "", "strict": False})
+        out.append({"objects": [a, b], "ops": [["open", 0], ["open", 1], ["close", 0], ["open", 0]]})
+    return out
+
+
+def reported_of(d):
+    return {"host": d.host, "port": d.port, "user": d.auth_username, "key": d.auth_private_key,
+            "strict": d.auth_strict_key, "cfg": d.ssh_config_file, "kh": d.ssh_known_hosts_file}
+
+
+def held_of(d):
+    """the arguments the transport OBJECT holds (the model's input for the history / keyword theorems)"""
+    tr = d.transport
+    bta, pta = tr._base_transport_args, tr.plugin_transport_args
+    if not hasattr(pta, "auth_username"):
+        return None
+    ex = bta.transport_options.get("open_cmd", [])
+    return {"host": bta.host, "port": bta.port, "tsock": int(bta.timeout_socket), "ttrans": int(bta.timeout_transport),
+            "user": pta.auth_username, "key": pta.auth_private_key, "strict": pta.auth_strict_key,
+            "cfg": pta.ssh_config_file, "kh": pta.ssh_known_hosts_file, "extra": [ex] if isinstance(ex, str) else list(ex)}
+
+
+def run_history(root, h, loop):
+    """-> (steps, drivers) ; must run inside dial.patched().  A step = one operation on one object with the
+    records the recorders made during it and what the driver reports at that moment."""
+    drivers = []
+    dial.restore_process_state()
+    for c in h["objects"]:
+        os.environ["HOME"] = os.path.join(root, c["home"])
+        reset_state()
+        kw = kwargs_of(root, c)
+        kw["auth_password"] = "pw"
+        drivers.append(driver_class(c)(**kw))
+    steps = []
+    for op, i in h["ops"]:
+        c, d = h["objects"][i], drivers[i]
+        os.environ["HOME"] = os.path.join(root, c["home"])
+        recs, exc = [], None
+        if op == "open":
+            recs, exc = dial.do_open(d.transport, loop)
+        elif op == "close":
+            exc = dial.do_close(d.transport)
+        else:
+            d.transport._build_open_cmd()
+        steps.append({"op": op, "i": i, "records": [[k, p] for k, p in recs], "exc": exc, "reported": reported_of(d)})
+    return steps, drivers
+
+
+def dial_oracle(root, c, r, recs, exc, first_open, stats=None):
+    """one open() of one object: every recorded connect / spawn / auth call against what THAT driver reports"""
+    bad = []
+    t = c["transport"]
+    os.environ["HOME"] = os.path.join(root, c["home"])
+
+    def cmp(kind, what, got, want):
+        if got != want or type(got) is not type(want):
+            bad.append((kind, "%s: the transport connects with %r, the driver reports %r" % (what, got, want)))
+
+    if not recs:
+        if t in LIBRARY and r["strict"] and exc == "ScrapliAuthenticationFailed":
+            if stats is not None:
+                stats["not_reached_strict"] += 1          # host key refused before anything is dialled
+        elif first_open or t in ("system", "telnet", "asynctelnet", "asyncssh"):
+            bad.append(("dial-nothing-recorded", "open() of a %s transport reached no connect entry point (%s)" % (t, exc)))
+        return bad
+    n_main = 0
+    for kind, p in recs:
+        if kind == "spawn":
+            n_main += 1
+            if t != "system":
+                bad.append(("dial-foreign-spawn", "a %s transport spawned %r" % (t, p["argv"])))
+                continue
+            bad += [("dial-" + k, m) for k, m in argv_oracle(c, r, p["argv"])]
+        elif kind in ("socket", "open_connection"):
+            n_main += 1
+            cmp("dial-host", kind + " host", p["host"], r["host"])
+            cmp("dial-port", kind + " port", p["port"], r["port"])
+        elif kind == "paramiko_auth":
+            cmp("dial-user", p["call"] + " username", p["username"], r["user"])
+            if p["call"] == "auth_publickey":
+                cmp("dial-key", "auth_publickey key file", p["key_file"], r["key"])
+        elif kind == "asyncssh_connect":
+            n_main += 1
+            kw = p["kwargs"]
+            if p["args"]:
+                bad.append(("dial-positional", "asyncssh.connect called with positional arguments %r" % (p["args"],)))
+                continue
+            res, err = dial.resolve_asyncssh(kw)
+            if res is None:
+                missing = [k for k in ("host", "port", "username", "client_keys", "config") if k not in kw]
+                if stats is not None:
+                    stats["asyncssh_unresolved"] += 1
+                if missing:
+                    bad.append(("dial-unresolvable", "asyncssh.connect without %s; the library's own resolution fails with %s"
+                                % (missing, err)))
+                continue
+            if stats is not None:
+                stats["asyncssh_resolved"] += 1
+            p["resolved"] = res
+            absent = [k for k in ("host", "port", "username") if k not in kw]
+            note = (" (keyword%s %s absent: resolved by asyncssh itself)" % ("s" if len(absent) > 1 else "", ", ".join(absent))) if absent else ""
+            cmp("dial-host", "asyncssh host" + note, res["host"], r["host"])
+            cmp("dial-port", "asyncssh port" + note, res["port"], r["port"])
+            cmp("dial-user", "asyncssh username" + note, res["username"], r["user"])
+            ck = kw.get("client_keys", dial.ABSENT)
+            if isinstance(ck, str) and ck not in ("", dial.ABSENT):
+                cmp("dial-key", "asyncssh client_keys", ck, r["key"])
+            elif ck == "" or ck == dial.ABSENT:
+                if r["key"] or res["loads_own_keys"]:
+                    bad.append(("dial-key", "asyncssh client_keys %s: the library %s, the driver reports key %r"
+                                % ("absent" if ck == dial.ABSENT else "''",
+                                   "loads keys of its own choice" if res["loads_own_keys"] else "uses none", r["key"])))
+            else:
+                bad.append(("dial-key", "asyncssh client_keys=%r, the driver reports %r" % (ck, r["key"])))
+            want_kh = r["kh"] if r["strict"] else None
+            if kw.get("known_hosts", dial.ABSENT) != want_kh:
+                bad.append(("dial-knownhosts", "asyncssh known_hosts=%r, the driver reports strict=%r known hosts %r"
+                            % (kw.get("known_hosts", dial.ABSENT), r["strict"], r["kh"])))
+            if kw.get("config", dial.ABSENT) != r["cfg"]:
+                bad.append(("dial-config", "asyncssh config=%r, the driver reports ssh_config_file %r"
+                            % (kw.get("config", dial.ABSENT), r["cfg"])))
+        else:
+            bad.append(("dial-unknown-record", "%r" % ((kind, p),)))
+    if t in ("system", "telnet", "asynctelnet", "asyncssh") and n_main != 1:
+        bad.append(("dial-count", "one open() of a %s transport made %d connect calls" % (t, n_main)))
+    return bad
+
+
+def check_history(root, h, loop, stats=None):
+    """-> (steps, drivers, failures [(step index, kind, msg)])"""
+    steps, drivers = run_history(root, h, loop)
+    fails, opened = [], set()
+    for n, st in enumerate(steps):
+        if st["op"] != "open":
+            if st["exc"]:
+                fails.append((n, "dial-%s-raised" % st["op"], "%s() raised %s" % (st["op"], st["exc"])))
+            continue
+        c = h["objects"][st["i"]]
+        recs = [(k, p) for k, p in st["records"]]
+        for kind, msg in dial_oracle(root, c, st["reported"], recs, st["exc"], st["i"] not in opened, stats):
+            fails.append((n, kind, "object %d of %d [%s]: %s" % (st["i"], len(h["objects"]), c["transport"], msg)))
+        opened.add(st["i"])
+    return steps, drivers, fails
+
+
+def shrink_history(root, h, kind, loop):
+    """greedy: drop operations and objects while a failure of the same kind remains"""
+    def fails(x):
+        try:
+            return any(k == kind for _, k, _ in check_history(root, x, loop)[2])
+        except Exception:  # noqa
+            return False
+    cur = {"objects": list(h["objects"]), "ops": [list(o) for o in h["ops"]]}
+    changed = True
+    while changed:
+        changed = False
+        for n in range(len(cur["ops"]) - 1, -1, -1):
+            cand = {"objects": cur["objects"], "ops": cur["ops"][:n] + cur["ops"][n + 1:]}
+            if cand["ops"] and fails(cand):
+                cur, changed = cand, True
+        for j in range(len(cur["objects"]) - 1, -1, -1):
+            if len(cur["objects"]) < 2:
+                break
+            ops = [[o, i - (1 if i > j else 0)] for o, i in cur["ops"] if i != j]
+            cand = {"objects": cur["objects"][:j] + cur["objects"][j + 1:], "ops": ops}
+            if ops and fails(cand):
+                cur, changed = cand, True
+    return cur
+
+
+def hist_term(h, steps, drivers):
+    """the system objects of a history, as the transports hold them, + the schedule + the observed spawns"""
+    idx = {}
+    objs = []
+    for i, (c, d) in enumerate(zip(h["objects"], drivers)):
+        if c["transport"] != "system":
+            continue
+        hd = held_of(d)
+        if (hd is None or not all(isinstance(hd[k], str) for k in ("host", "user", "key", "cfg", "kh"))
+                or not isinstance(hd["port"], int) or isinstance(hd["port"], bool) or hd["port"] < 0
+                or not all(isinstance(x, str) for x in hd["extra"])):
+            return None
+        idx[i] = len(objs)
+        objs.append("(mkSO (mkB %s %d) %d %d (mkP %s %s %s %s %s) %s)" % (
+            coq_str(hd["host"]), hd["port"], hd["tsock"], hd["ttrans"], coq_str(hd["user"]), coq_str(hd["key"]),
+            coq_bool(hd["strict"]), coq_str(hd["cfg"]), coq_str(hd["kh"]), coq_list([coq_str(x) for x in hd["extra"]])))
+    if not objs:
+        return None
+    ops, seen = [], []
+    for st in steps:
+        if st["i"] not in idx:
+            continue
+        ops.append("(%s %d%%nat)" % ({"open": "HOpen", "close": "HClose", "build": "HBuild"}[st["op"]], idx[st["i"]]))
+        for k, p in st["records"]:
+            if k == "spawn":
+                if not (isinstance(p["argv"], list) and all(isinstance(x, str) for x in p["argv"])):
+                    return None
+                seen.append("(%d%%nat, %s)" % (idx[st["i"]], coq_list([coq_str(x) for x in p["argv"]])))
+    return "((%s : list sys_obj), (%s : list hop), (%s : list (nat * list str)))" % (coq_list(objs), coq_list(ops), coq_list(seen))
+
+
+def kw_terms(root, h, steps, drivers):
+    """asyncssh connect calls: keywords present / absent + the library's resolution, for the model's
+    asyncssh_kwargs / lib_resolve"""
+    out = []
+    for st in steps:
+        c, d = h["objects"][st["i"]], drivers[st["i"]]
+        if c["transport"] != "asyncssh":
+            continue
+        hd = held_of(d)
+        for k, p in st["records"]:
+            if k != "asyncssh_connect" or "resolved" not in p or hd is None:
+                continue
+            kw, res = p["kwargs"], p["resolved"]
+            vals = [kw.get("host", ""), kw.get("username", ""), res["host"], res["username"], hd["host"], hd["user"]]
+            ints = [kw.get("port", 0), res["port"], hd["port"]]
+            if not all(isinstance(x, str) for x in vals) or not all(isinstance(x, int) and not isinstance(x, bool) and x >= 0 for x in ints):
+                continue
+            # what the library takes where a keyword is absent: ask it, with host / port / username left out
+            os.environ["HOME"] = os.path.join(root, c["home"])
+            bare = {x: v for x, v in kw.items() if x not in ("port", "username")}
+            lres, _ = dial.resolve_asyncssh(bare)
+            if lres is None or not isinstance(lres["username"], str) or not isinstance(lres["port"], int):
+                continue
+            seen = "(mkK %s %s %s)" % (coq_opt(kw.get("host"), coq_str), coq_opt(kw.get("port"), str), coq_opt(kw.get("username"), coq_str))
+            out.append("(mkB %s %d, mkP %s %s %s %s %s, %s, mkL [] %d %s, (%s, %d, %s))" % (
+                coq_str(hd["host"]), hd["port"], coq_str(hd["user"]), coq_str(hd["key"]), coq_bool(hd["strict"]),
+                coq_str(hd["cfg"]), coq_str(hd["kh"]), seen, lres["port"], coq_str(lres["username"]),
+                coq_str(res["host"]), res["port"], coq_str(res["username"])))
+    return out
+
+
+def run_dial_suite(rep, root, rng, header_dial, oracle_fail_out):
+    """returns coverage dict; appends violations itself (with a shrunk history as the replay input)"""
+    thorough = rep.tier == "thorough"
+    hists = structured_histories()
+    n_struct = len(hists)
+    hists += [gen_history(rng, root) for _ in range(1500 if thorough else 170)]
+    stats = {"histories": len(hists), "structured": n_struct, "class_or_module_level_containers_reset": dial.snapshot_process_state(), "objects": 0, "opens": 0, "reopens": 0, "builds": 0,
+             "by_transport": {}, "objects_per_history": {}, "records": {}, "not_reached_strict": 0,
+             "asyncssh_resolved": 0, "asyncssh_unresolved": 0, "asyncssh_no_username": 0,
+             "asyncssh_no_username_config_has_user": 0, "failures": 0, "constructor_raised": 0}
+    hterms, kterms, reported_kinds = [], [], set()
+    t_start = time.time()
+    loop = dial.Loop()
+    try:
+        with dial.patched():
+            for h in hists:
+                try:
+                    steps, drivers, fails = check_history(root, h, loop, stats)
+                except Exception as e:  # noqa  (a constructor refused a valid combination: the resolve suite reports that)
+                    stats["constructor_raised"] += 1
+                    rep.notes.append("dial suite: history not run (%s: %s) %r" % (type(e).__name__, e, h))
+                    continue
+                stats["objects"] += len(h["objects"])
+                k = str(len(h["objects"]))
+                stats["objects_per_history"][k] = stats["objects_per_history"].get(k, 0) + 1
+                seen_open = set()
+                for st in steps:
+                    t = h["objects"][st["i"]]["transport"]
+                    if st["op"] == "open":
+                        stats["opens"] += 1
+                        stats["by_transport"][t] = stats["by_transport"].get(t, 0) + 1
+                        if st["i"] in seen_open:
+                            stats["reopens"] += 1
+                        seen_open.add(st["i"])
+                        if t == "asyncssh" and st["reported"]["user"] == "":
+                            stats["asyncssh_no_username"] += 1
+                            if os.path.basename(str(st["reported"]["cfg"])) in DIAL_CFGS:
+                                stats["asyncssh_no_username_config_has_user"] += 1
+                    elif st["op"] == "build":
+                        stats["builds"] += 1
+                    for kk, _ in st["records"]:
+                        stats["records"][kk] = stats["records"].get(kk, 0) + 1
+                rep.case("dial:" + json.dumps(h, sort_keys=True), nontrivial=len(h["objects"]) > 1 or len(h["ops"]) > 1
+                         or h["objects"][0]["transport"] in LIBRARY)
+                ht = hist_term(h, steps, drivers)
+                if ht is not None:
+                    hterms.append(ht)
+                kterms += kw_terms(root, h, steps, drivers)
+                if fails:
+                    stats["failures"] += 1
+                for n, kind, msg in fails:
+                    key = (kind, h["objects"][steps[n]["i"]]["transport"])
+                    if key in reported_kinds or len(reported_kinds) >= 4:
+                        continue
+                    reported_kinds.add(key)
+                    small = shrink_history(root, h, kind, loop)
+                    s_steps, _, s_fails = check_history(root, small, loop)
+                    s_msg = next((m for _, k2, m in s_fails if k2 == kind), msg)
+                    rep.violation("%s: %s" % (kind, s_msg),
+                                  {"suite": "dial", "kind": kind, "history": small, "observed": s_steps,
+                                   "found_in": h, "rerun": "./check C17 --replay <this file>"}, signature="c17-" + kind)
+                    oracle_fail_out.append(kind)
+    finally:
+        loop.close()
+    stats["wall_s_python"] = round(time.time() - t_start, 2)
+    if stats["asyncssh_resolved"] == 0 or not hterms:
+        rep.broken.append("dial suite: nothing resolved / no system history (vacuous)")
+    # one evaluation for both kinds of case; elaborating the terms is what costs, so they are dealt by size into
+    # ~8 shards of similar weight (the shards run in parallel)
+    tagged = sorted([(len(x), 0, i, "(inl %s)" % x) for i, x in enumerate(hterms)]
+                    + [(len(x), 1, i, "(inr %s)" % x) for i, x in enumerate(kterms)], reverse=True)
+    n_sh = 16 if thorough else 8
+    order = [tg for k in range(n_sh) for tg in tagged[k::n_sh]]
+    allb, alog = common.eval_cases(rep.workdir, "cases_c17_dial", header_dial, [tg[3] for tg in order], "chk_dial",
+                                   shard=max(1, -(-len(order) // n_sh)))
+    hb = None if allb is None else [order[i][2] for i in allb if order[i][1] == 0]
+    kb = None if allb is None else [order[i][2] for i in allb if order[i][1] == 1]
+    stats["wall_s_total"] = round(time.time() - t_start, 2)
+    stats["model_history_cases"] = len(hterms)
+    stats["model_history_disagreements"] = None if hb is None else len(hb)
+    stats["model_kwargs_cases"] = len(kterms)
+    stats["model_kwargs_disagreements"] = None if kb is None else len(kb)
+    for what, b, log in (("history", hb, alog), ("asyncssh keywords", kb, alog)):
+        if b is None:
+            rep.broken.append("dial suite: model evaluation failed (%s)" % what)
+            rep.notes.append(log)
+        elif b and not oracle_fail_out:
+            # the model of open() over several objects / of the connect keywords differs from the code although
+            # every recorded call agrees with what its driver reports
+            rep.broken.append("dial suite: model differs from the implementation on %d %s case(s) where the oracle is satisfied"
+                              % (len(b), what))
+        elif b:
+            rep.notes.append("dial suite: model/implementation disagreement on %d %s case(s) (oracle failed too)" % (len(b), what))
+    return stats
+
 # ------------------------------------------------------------------------------------------------
 def run(rep):
     from gen import gen_resolve
@@ -755,6 +1221,7 @@ def run(rep):
     rng = rep.rng
     thorough = rep.tier == "thorough"
     ssh2_kind = ensure_ssh2_importable()
+    dial.snapshot_process_state()                # before the first transport object exists
     # 1. regenerate from the source
     info = {}
     try:
@@ -907,8 +1374,15 @@ def run(rep):
                         oracle_fail.append((-1, c, {"received": got}, [("standin-destination", "received argv %r reads as host %r port %r; reported %r:%r" % (got, ps["dest"], ps["port"], who["host"], who["port"]))]))
                 except SshUsage as e:
                     oracle_fail.append((-1, c, {"received": got}, [("standin-usage", "received argv %r is a usage error for ssh: %s" % (got, e))]))
+    # dial suite (after everything else that draws from rng: the other suites see the same stream as before)
+    dial_fail = []
+    try:
+        dial_stats = run_dial_suite(rep, root, rng, HEADER_DIAL % _plain(root), dial_fail)
+    except Exception as e:  # noqa
+        dial_stats = {"error": repr(e)}
+        rep.broken.append("dial suite failed: %r" % (e,))
     rep.coverage["correspondence"] = {
-        "suite": "resolve", "cases": len(terms), "distribution": dist,
+        "suite": "resolve", "cases": len(terms), "distribution": dist, "dial": dial_stats,
         "model_disagreements": None if bad_ix is None else len(bad_ix), "oracle_failures": len(oracle_fail),
         "ssh_grammar": {"argvs": len(gterms), "model_vs_python_getopt_disagreements": None if gbad_ix is None else len(gbad_ix),
                         "real_ssh_G_compared": greal, "real_ssh_G_disagreements": len(greal_bad)},
@@ -919,13 +1393,20 @@ def run(rep):
                 "(none/Port/Port+User+Identity/star Port/star User/True) x host shape x HOME + random draws over all argument "
                 "forms + a malformed stream; each through the real constructor (Driver/AsyncDriver, 15% Generic/IOSXE) on a real "
                 "temporary file system; non-trivial = anything but (plain host, no port, no file arguments); distinct = the case dict; "
-                "argv cases: option soups through ssh_parse / Python getopt / real ssh -G")
+                "argv cases: option soups through ssh_parse / Python getopt / real ssh -G; dial histories: structured (asyncssh / "
+                "paramiko x username none/explicit x config none / without User / with User / with a User only the library's reader "
+                "accepts / Host * / the user's own, multi-device system shapes, two-object re-open for every transport) + random "
+                "(1-4 objects, 50% all-system, 40% of same-transport neighbours differ in one or two arguments only; each object opened "
+                "in a shuffled order, then random close / re-open / direct _build_open_cmd), each from the state of a fresh process")
     rep.extra_assumptions += [
         "model of OpenSSH's command-line grammar (coq/model/SshArgv.v ssh_parse): hand-written from ssh.c; confronted with an "
         "independent Python getopt and with the installed `ssh -G` on generated argvs, not verified",
         "environment of the constructor (pathlib is_file/expanduser, scrapli.ssh_config lookup result [C16]) is an explicit "
         "parameter of the model; the theorems hold for every environment",
-        "ssh2-python is %s: scrapli's own Ssh2Transport class is constructed, never opened" % ssh2_kind]
+        "ssh2-python is %s: scrapli's own Ssh2Transport class is constructed, never opened" % ssh2_kind,
+        "dial suite: what asyncssh does with the recorded keywords is asyncssh.SSHClientConnectionOptions' own answer (offline); "
+        "paramiko / socket / asyncio calls are bound with inspect.signature of the real callables; lib_resolve in OpenHist.v "
+        "(absent keyword -> the library's choice, present one -> as given, '' included) is confronted with that answer per call"]
     # ---- verdicts ----
     seen = set()
     for (i, c, obs, bad) in oracle_fail:
@@ -983,10 +1464,38 @@ def search_near(rep, root, rng, seeds):
     return False
 
 
+def replay_dial(r):
+    workdir = os.path.join(common.BUILD, "C17_replay")
+    os.makedirs(workdir, exist_ok=True)
+    root = make_fixture(workdir)
+    dial.snapshot_process_state()
+    h = {"objects": [full_case(c) for c in r["history"]["objects"]], "ops": r["history"]["ops"]}
+    loop = dial.Loop()
+    try:
+        with dial.patched():
+            steps, drivers, fails = check_history(root, h, loop)
+    finally:
+        loop.close()
+    for i, c in enumerate(h["objects"]):
+        print("object %d : %s" % (i, json.dumps(kwargs_of(root, c), sort_keys=True, default=repr)))
+        print("  reports: %s" % json.dumps(reported_of(drivers[i]), sort_keys=True, default=repr))
+    for n, st in enumerate(steps):
+        print("step %d   : %s(object %d)%s" % (n, st["op"], st["i"], " raised " + st["exc"] if st["exc"] else ""))
+        for k, p in st["records"]:
+            print("    %s %s" % (k, json.dumps(p, sort_keys=True, default=repr)))
+        for m, kind, msg in fails:
+            if m == n:
+                print("FAILS    : %s: %s" % (kind, msg))
+    print("property holds on this history" if not fails else "property FAILS on this history")
+    return 0 if not fails else 1
+
+
 def replay(path):
     common.setup_env()
     ensure_ssh2_importable()
     r = json.load(open(path))
+    if r.get("suite") == "dial":
+        return replay_dial(r)
     c = r.get("case")
     if not c:
         print("nothing to replay (no concrete input): %s" % r.get("what"))
@@ -1019,20 +1528,36 @@ MANIFEST = {
             "the system-transport magic values), argv_faithful (ssh_parse (build_open_cmd ...) has destination = host and port / login / "
             "identity / -F / StrictHostKeyChecking / UserKnownHostsFile exactly as resolved, each its own argv element, no remote command; "
             "the destination stays the host whatever user open_cmd arguments follow) and the end-to-end statement without side condition "
-            "(a host that starts with '-' after stripping is refused by the constructor). The pinned commit is refuted by vm_compute "
+            "(a host that starts with '-' after stripping is refused by the constructor); history_spawns_are_per_object / "
+            "history_argv_faithful (model/OpenHist.v: over ANY sequence of open / close / re-open / direct _build_open_cmd of any number of "
+            "system transport objects, every open of object i spawns exactly once with the argv built from object i's own arguments, read by "
+            "ssh as that object's host / port / login / files; refuted by witness for a class-level open_cmd) and "
+            "asyncssh_connects_with_reported (host / port / username keywords always present, so the library's own resolution of absent "
+            "keywords never applies; refuted for the variant that drops an empty username). The pinned commit is refuted by vm_compute "
             "witnesses (ssh-config Port vs transport port; explicit port overridden; unstripped host dialled; '-oProxyCommand=..' read as "
             "an option). Axiom-free. Tie: Gen_Resolve.v regenerated on every run (transport table with default ports from the real "
             "constructor, ssh-config tuple and candidate files by ast, magic strings, str.strip whitespace set, the real _build_open_cmd on "
             "306 branch combinations decided against the model by vm_compute); the model [resolve]/[build_open_cmd] is run by vm_compute on "
             "the same generated argument combinations as the real constructors and must agree; an independent oracle decides the property "
-            "on the implementation. partial: what OpenSSH does with the argv is a hand model of ssh.c's option grammar — observed to agree "
+            "on the implementation. Dial suite: multi-object histories through the real open() of system / paramiko / asyncssh / telnet / "
+            "asynctelnet with PtyProcess.spawn, Socket, paramiko.Transport + RSAKey, asyncssh.connect and asyncio.open_connection replaced "
+            "by recorders; each recorded call (absent keywords resolved by asyncssh.SSHClientConnectionOptions itself / the real paramiko "
+            "signatures) is compared with what the opened driver reports, every history starts from the class- and module-level state of a "
+            "fresh process; the system histories and the asyncssh keywords are also run through the model by vm_compute. "
+            "partial: what OpenSSH does with the argv is a hand model of ssh.c's option grammar — observed to agree "
             "with an independent Python getopt, with the installed `ssh -G` and with the argv a stand-in ssh binary receives, not proved.",
-    "note": "Trusted: Coq kernel + vm_compute; hand models coq/model/Resolve.v, SshArgv.v (tied by correspondence only); gen/gen_resolve.py; "
+    "note": "Trusted: Coq kernel + vm_compute; hand models coq/model/Resolve.v, SshArgv.v, OpenHist.v (tied by correspondence only); gen/gen_resolve.py; "
             "the generators' coverage. Environment as model parameter: pathlib is_file/expanduser, result of scrapli.ssh_config lookup (C16). "
             "Not covered: on_init callables that mutate driver attributes after construction (the transport keeps the constructor's values), "
             "transport_options open_cmd arguments that repeat -F/-o (ssh's own precedence then applies; only the destination claim is proved for "
             "them), ssh's interpretation of the destination string itself (user@host, ssh:// URIs), negative / bool ports, the optional ssh2 "
-            "package (constructor path only, through a stand-in module when it is not installed).",
+            "package (constructor path only, through a stand-in module when it is not installed). Dial suite, oracle-only (no Coq model): the "
+            "paramiko / telnet / asynctelnet connect and auth calls, asyncssh client_keys / known_hosts / config keywords, histories that mix "
+            "transports (the model covers the system objects of a history and asyncssh host / port / username). The recorders end open() at the "
+            "connect call (paramiko: never authenticated; asyncssh: PermissionDenied; asynctelnet: ConnectionRefusedError), so parameters used "
+            "only after a successful login are not observed; strict-key cases whose host is not in the known-hosts file stop before the dial "
+            "and are counted, not checked. Driver.open() (channel authentication, on_open) is not run, only transport.open().",
     "technique": "Coq case analysis over the constructor model with an explicit environment + getopt-model proof for the argv; vm_compute "
-                 "correspondence against the real constructors; independent oracle incl. real `ssh -G` and a stand-in ssh binary",
+                 "correspondence against the real constructors; independent oracle incl. real `ssh -G` and a stand-in ssh binary; "
+                 "multi-object open histories with recording stand-ins for every connect entry point, absent keywords resolved by the library",
 }
